@@ -84,14 +84,15 @@ package ws
 //@   requires err != nil && @WSOK(w)
 //@   ensures @WSOK(w) && @KEEPW(w)
 //@   ensures [C13] T4-closed: w.connectionClosed && w.connectionClosedError == err
-//@   ensures [C13] T4-reported: w.dataProcessing.$errReports == old(w.dataProcessing.$errReports) + 1
+//@   ensures [C13,C11] T4-reported: w.dataProcessing.$errReports == old(w.dataProcessing.$errReports) + 1
 // the SHIP layer is told only once the connection answers "closed, with this error" and is released: nothing
 // it does in response, and no frame the read pump still holds, can see an open connection after the report
 //@   atcall ReportConnectionError [C13,C12] T4-flag-first: w.connectionClosed && w.connectionClosedError == err && @WSINV(w)
 //@   modifies @wsst(w)
 //@ func (w *WebsocketConnection).CloseDataConnection(closeCode, reason) entry [C13,C08]
 //@   ensures [C13] T1-closed: w.connectionClosed
-//@   ensures [C13] T1-silent: w.dataProcessing.$errReports == old(w.dataProcessing.$errReports)
+// (C08: a report from inside a deliberate close re-enters CloseConnection under its sync.Once - the caller wedges)
+//@   ensures [C13,C08] T1-silent: w.dataProcessing.$errReports == old(w.dataProcessing.$errReports)
 //@   modifies @wsst(w)
 //@ func (w *WebsocketConnection).IsDataConnectionClosed() entry [C13,C12]
 //@   ensures result.0 == w.connectionClosed
@@ -131,6 +132,8 @@ package ws
 //@ func (w *WebsocketConnection).textFromMessage(msg) [C08]
 //@ func (w *WebsocketConnection).readShipPump() entry [C13,C08]
 //@   atcall HandleIncomingWebsocketMessage [C13] T3-open: !w.connectionClosed
+// the pump ends the connection only together with telling the SHIP layer (C11: every end is reported)
+//@   ensures [C13,C11] T5-close-reported: called(close) ==> called(ReportConnectionError)
 //@   atcall ReportConnectionError [C13,C12] T3-report: w.connectionClosed && w.connectionClosedError != nil && @WSINV(w)
 //@   modifies @wsst(w)
 //@ loop (w *WebsocketConnection).readShipPump #0
